@@ -109,6 +109,22 @@ type MineOpts struct {
 	Salt uint32
 	// OpReturn adds an OP_RETURN output to the first non-coinbase tx.
 	OpReturn bool
+	// OddScript adds to the first non-coinbase tx an output whose script
+	// does not parse (a push running past the end of the script). Such an
+	// output is unusual but legal, is not an OP_RETURN output, and BIP158
+	// filters contain its script.
+	OddScript bool
+}
+
+// OddScript returns the unparseable output script used for MineOpts.OddScript
+// (salted so that blocks differ).
+func OddScript(height int32, salt uint32) []byte {
+	return []byte{0x4c, 0x40, byte(height), byte(salt), byte(salt >> 8), 0x51}
+}
+
+// IsOddScript recognises the scripts OddScript makes.
+func IsOddScript(s []byte) bool {
+	return len(s) == 6 && s[0] == 0x4c && s[1] == 0x40
 }
 
 // Headers returns the headers from genesis to b (index == height).
@@ -286,6 +302,9 @@ func (t *Tree) buildBlock(parent *Block, height int32, o MineOpts) builtBlock {
 		if o.OpReturn && i == 0 {
 			data, _ := txscript.NullDataScript([]byte(fmt.Sprintf("verif-%d-%d", height, o.Salt)))
 			tx.AddTxOut(&wire.TxOut{Value: 0, PkScript: data})
+		}
+		if o.OddScript && i == 0 {
+			tx.AddTxOut(&wire.TxOut{Value: 0, PkScript: OddScript(height, o.Salt)})
 		}
 		txs = append(txs, tx)
 		prevScripts = append(prevScripts, in.Script)
